@@ -36,6 +36,62 @@ type tokKnobs struct {
 	Deploys   []mwDeployConf `json:"deployments"` // [0] is the target; [1] another deployment
 	SameKey   bool           `json:"other_deployment_shares_key"`
 	OtherDiff string         `json:"other_deployment_differs_in"` // with a shared key: "both" (its own URL as audience and issuer) | "audience" | "issuer"
+	// Gates: further attribute-gated routes of the target, /vgate<i>/: RequireAttribute(Attr, Value) for required values an
+	// application may well ask for - an organisation's name, a group's distinguished name, anything with punctuation or blanks in it.
+	Gates []tokGate `json:"value_gates,omitempty"`
+}
+
+// tokGate is one attribute gate: the session's attribute Attr must carry the value Value - that very string, whatever it looks like.
+type tokGate struct {
+	Attr  string `json:"attribute"`
+	Value string `json:"required_value"`
+}
+
+var c16GateAttrs = []string{"o", "memberOf", "affiliation", "scope", "perm"}
+
+// required values: most of them contain a character that some notation or other uses to separate the items of a list
+var c16GateValues = []string{"Acme, Inc.", "cn=admins,ou=groups,dc=example,dc=org", "staff,faculty", "staff faculty", "ops;dev", "read|write", "team/blue", "zqplainqz"}
+
+// c16Derive draws the values a session's attribute carries from the required value v: v itself, a piece of it (cut at a separator
+// character it contains), a prefix, a suffix, another spelling, v with more appended, something unrelated. Which of them equal v
+// is for the oracle to say.
+func c16Derive(g *Rng, v string) []string {
+	var out []string
+	for i, n := 0, 1+g.Intn(3); i < n; i++ {
+		switch g.PickW(3, 5, 1, 1, 1, 1, 1, 1) {
+		case 0:
+			out = append(out, v)
+		case 1:
+			var seps []string
+			for _, c := range []string{",", ";", "|", "/", " ", "="} {
+				if strings.Contains(v, c) {
+					seps = append(seps, c)
+				}
+			}
+			if len(seps) == 0 {
+				out = append(out, v[:1+g.Intn(len(v)-1)])
+				break
+			}
+			piece := Pick(g, strings.Split(v, Pick(g, seps...))...)
+			if g.Bool(0.3) {
+				piece = strings.TrimSpace(piece)
+			}
+			out = append(out, piece)
+		case 2:
+			out = append(out, v[:1+g.Intn(len(v)-1)])
+		case 3:
+			out = append(out, v[1+g.Intn(len(v)-1):])
+		case 4:
+			out = append(out, strings.ToUpper(v))
+		case 5:
+			out = append(out, v+Pick(g, ",", ", ", " ", ";", "|")+"zqmoreqz")
+		case 6:
+			out = append(out, "zqotherqz")
+		default:
+			out = append(out, strings.ReplaceAll(v, " ", ""))
+		}
+	}
+	return out
 }
 
 type tokStep struct {
@@ -54,7 +110,14 @@ type tokStep struct {
 	// login Other (-1: none). Order says which of them moves at each decision point (token decode, arrival at the application).
 	Other int   `json:"other_login,omitempty"`
 	Order []int `json:"order,omitempty"`
+	// login: the assertion carries one more attribute (what the value gates ask about), with these values
+	CarryAttr   string   `json:"extra_attribute,omitempty"`
+	CarryValues []string `json:"extra_attribute_values,omitempty"`
 }
+
+// c16SLOPath in a present step's path stands for the path of the single logout URL the SP advertises in its metadata. The
+// middleware does not serve it; an application that implements logout serves it itself, behind RequireAccount like its other routes.
+const c16SLOPath = "@slo"
 
 var tokKinds = []string{"valid", "valid", "valid", "tracking", "other-deployment", "alg-none", "hs256-pem", "hs256-der", "claims-edit", "header-edit", "truncated", "bitflip", "empty", "garbage", "mallory-signed", "wrong-cookie-name",
 	// tokens the session codec never issued although they carry a signature of the deployment's own key (another component of the
@@ -103,17 +166,39 @@ func genTokens(g *Rng, tier string) *Plan {
 	if life == 0 {
 		life = 3_600_000
 	}
+	if g.Bool(0.5) {
+		for i, n := 0, 1+g.Intn(2); i < n; i++ {
+			k.Gates = append(k.Gates, tokGate{Attr: Pick(g, c16GateAttrs...), Value: Pick(g, c16GateValues...)})
+		}
+	}
+	login := func() tokStep {
+		st := tokStep{Kind: "login", User: g.Intn(19)}
+		if len(k.Gates) > 0 && g.Bool(0.85) {
+			gt := Pick(g, k.Gates...)
+			st.CarryAttr, st.CarryValues = gt.Attr, c16Derive(g, gt.Value)
+		}
+		return st
+	}
 	p := &Plan{Knobs: mustJSON(k)}
-	steps := []tokStep{{Kind: "login", User: g.Intn(19)}}
+	steps := []tokStep{login()}
 	nlogins := 1
 	n := 3 + g.Intn(9)
 	for i := 0; i < n; i++ {
 		switch g.PickW(2, 10, 4, 1) {
 		case 0:
-			steps = append(steps, tokStep{Kind: "login", User: g.Intn(19)})
+			steps = append(steps, login())
 			nlogins++
 		case 1:
 			ps := tokStep{Kind: "present", Token: Pick(g, tokKinds...), Login: g.Intn(nlogins), Path: Pick(g, "/page", "/page", "/gated/x", "/nested/x", "/gatedempty/x")}
+			switch {
+			case len(k.Gates) > 0 && g.Bool(0.5):
+				// a value gate discriminates only among sessions: mostly the genuine token
+				ps.Path = fmt.Sprintf("/vgate%d/x", g.Intn(len(k.Gates)))
+				ps.Token = Pick(g, "valid", "valid", "valid", ps.Token)
+			case g.Bool(0.12):
+				// the application's own logout endpoint at the path the SP advertises; what a logout message would bring along
+				ps.Path = c16SLOPath + Pick(g, "", "", "?SAMLRequest=zqlogoutqz&RelayState=x", "?SAMLResponse=zqlogoutqz")
+			}
 			if g.Bool(0.25) {
 				ps.Method = Pick(g, "POST", "DELETE", "OPTIONS", "OPTIONS", "HEAD", "PUT")
 				ps.Preflight = g.Bool(0.5)
@@ -131,7 +216,7 @@ func genTokens(g *Rng, tier string) *Plan {
 	if g.Bool(0.3) {
 		// two requests in flight at once (every web server runs handlers concurrently): each is judged by its own token
 		if nlogins < 2 {
-			steps = append(steps, tokStep{Kind: "login", User: g.Intn(19)})
+			steps = append(steps, login())
 			nlogins++
 		}
 		for q, n := 0, 1+g.Intn(2); q < n; q++ {
@@ -150,6 +235,7 @@ func genTokens(g *Rng, tier string) *Plan {
 
 type loginRec struct {
 	user     int
+	u        mwUser // the user as this login's assertion describes them (the plan may add an attribute)
 	token    string
 	tracking string // a tracking token minted by the same deployment
 	other    string // a session token minted by the other deployment for the same user
@@ -283,13 +369,31 @@ func execTokens(t *testing.T, p *Plan) *Result {
 	}
 	deploys[0].nestBehind(deploys[1])
 	d := deploys[0]
-	// the target's session codec is wrapped: a token decode is a decision point of the two-request schedules ("pair" steps)
-	switch sp := d.mw.Session.(type) {
-	case samlsp.CookieSessionProvider:
-		sp.Codec = yieldCodec{sp.Codec}
-		d.mw.Session = sp
-	case *samlsp.CookieSessionProvider:
-		sp.Codec = yieldCodec{sp.Codec}
+	for gi, gt := range k.Gates {
+		d.mux.Handle(fmt.Sprintf("/vgate%d/", gi), d.mw.RequireAccount(samlsp.RequireAttribute(gt.Attr, gt.Value)(d.record(&d.gated))))
+	}
+	// the application's logout endpoint, where the SP's metadata says it is
+	sloPath := d.mw.ServiceProvider.SloURL.Path
+	if sloPath != "" && sloPath != d.mw.ServiceProvider.AcsURL.Path && sloPath != d.mw.ServiceProvider.MetadataURL.Path {
+		d.mux.Handle(sloPath, d.mw.RequireAccount(d.record(&d.hits)))
+	}
+	// the target's session codec is wrapped: a token decode is a decision point of the two-request schedules ("pair" steps).
+	// Only plans with such a step need that; the others run the deployment with the codec as shipped (a wrapper hides the codec's
+	// concrete type from code that asks for it).
+	hasPair := false
+	for _, raw := range p.Steps {
+		if decode[tokStep](raw).Kind == "pair" {
+			hasPair = true
+		}
+	}
+	if hasPair {
+		switch sp := d.mw.Session.(type) {
+		case samlsp.CookieSessionProvider:
+			sp.Codec = yieldCodec{sp.Codec}
+			d.mw.Session = sp
+		case *samlsp.CookieSessionProvider:
+			sp.Codec = yieldCodec{sp.Codec}
+		}
 	}
 	defer func() { mwYield = nil }()
 	life := ms(k.LifetimeMs)
@@ -347,6 +451,9 @@ func execTokens(t *testing.T, p *Plan) *Result {
 			}
 		case "login":
 			u := users[st.User%len(users)]
+			if st.CarryAttr != "" && len(st.CarryValues) > 0 {
+				u.Attrs = append(append([]AttrSpec(nil), u.Attrs...), AttrSpec{Name: st.CarryAttr, Values: st.CarryValues})
+			}
 			var tok, trk, oth string
 			var err error
 			at(0, func() {
@@ -365,8 +472,11 @@ func execTokens(t *testing.T, p *Plan) *Result {
 				res.violate(si, "login-failed", "C16/fault-free-login-failed", "session", err.Error(), "")
 				return res
 			}
-			logins = append(logins, &loginRec{user: st.User % len(users), token: tok, tracking: trk, other: oth, mintedAt: time.Now()})
+			logins = append(logins, &loginRec{user: st.User % len(users), u: u, token: tok, tracking: trk, other: oth, mintedAt: time.Now()})
 			res.logf("step %d login user %d -> login %d", si, st.User%len(users), len(logins)-1)
+			if st.CarryAttr != "" && len(st.CarryValues) > 0 {
+				res.logf("step %d   the assertion also carries %s=%q", si, st.CarryAttr, st.CarryValues)
+			}
 		case "pair":
 			if st.Login >= len(logins) || st.Other >= len(logins) {
 				continue
@@ -438,7 +548,7 @@ func execTokens(t *testing.T, p *Plan) *Result {
 				continue
 			}
 			l := logins[st.Login]
-			u := users[l.user]
+			u := l.u
 			tok := l.token
 			cookieName := d.sessionCookieName()
 			kind := st.Token
@@ -583,6 +693,23 @@ func execTokens(t *testing.T, p *Plan) *Result {
 			}
 			hitsBefore, gatedBefore := len(d.hits)+len(d.nested), len(d.gated)
 			var rep *reply
+			reqPath, where, whereDetail := st.Path, "", ""
+			if strings.HasPrefix(reqPath, c16SLOPath) {
+				where, whereDetail = "/at-the-advertised-logout-path", "the request goes to the application's logout endpoint, behind RequireAccount at the single-logout path the SP advertises"
+				if sloPath == "" {
+					continue
+				}
+				reqPath = sloPath + strings.TrimPrefix(reqPath, c16SLOPath)
+				res.probe("path:the-logout-endpoint-the-sp-advertises")
+			}
+			var vgate *tokGate
+			if strings.HasPrefix(st.Path, "/vgate") {
+				gi, err := strconv.Atoi(strings.TrimSuffix(strings.TrimPrefix(st.Path, "/vgate"), "/x"))
+				if err != nil || gi < 0 || gi >= len(k.Gates) {
+					continue
+				}
+				vgate = &k.Gates[gi]
+			}
 			method, hdr := "GET", http.Header{}
 			if st.Method != "" {
 				method = st.Method
@@ -594,12 +721,12 @@ func execTokens(t *testing.T, p *Plan) *Result {
 				hdr.Set("Access-Control-Request-Headers", "content-type")
 				res.probe("cors-preflight-headers")
 			}
-			at(jump, func() { rep = deliverH(d.handler, method, d.base+st.Path, "", "", cookies, hdr) })
+			at(jump, func() { rep = deliverH(d.handler, method, d.base+reqPath, "", "", cookies, hdr) })
 			if rep.Panic != nil {
 				res.Excluded = "panic (reported under C09)"
 				return res
 			}
-			gatedPath := strings.HasPrefix(st.Path, "/gated/") || strings.HasPrefix(st.Path, "/gatedempty/")
+			gatedPath := strings.HasPrefix(st.Path, "/gated/") || strings.HasPrefix(st.Path, "/gatedempty/") || vgate != nil
 			ran := len(d.hits)+len(d.nested) > hitsBefore || len(d.gated) > gatedBefore
 			authenticated := ran || (gatedPath && rep.Code == http.StatusForbidden && len(rep.Cookies) == 0 && rep.Header.Get("Location") == "")
 			observed := "NO_SESSION"
@@ -620,7 +747,7 @@ func execTokens(t *testing.T, p *Plan) *Result {
 				continue
 			case "NO_SESSION":
 				if ran || (gatedPath && authenticated) {
-					res.violate(si, "foreign-or-stale-token-authenticates", "C16/authenticated/"+kind+"/"+ageClass(age, life), "NO_SESSION", observed, "")
+					res.violate(si, "foreign-or-stale-token-authenticates", "C16/authenticated/"+kind+"/"+ageClass(age, life)+where, "NO_SESSION", observed, whereDetail)
 					return res
 				}
 				continue
@@ -645,10 +772,31 @@ func execTokens(t *testing.T, p *Plan) *Result {
 					}
 				}
 			}
+			gateDetail := ""
+			if vgate != nil {
+				// the gate admits iff the attribute it names carries the required value: one of its values is that string
+				wantAdmit = false
+				carried := u.expectedAttrs()[vgate.Attr]
+				for _, v := range carried {
+					if v == vgate.Value {
+						wantAdmit = true
+					}
+				}
+				gateDetail = fmt.Sprintf("the gate requires %s to carry %q; the session's %s carries %q", vgate.Attr, vgate.Value, vgate.Attr, carried)
+				res.probe("value-gate:presented")
+				if strings.ContainsAny(vgate.Value, ",;|/ =") {
+					res.probe("value-gate:required-value-contains-a-separator")
+					if !wantAdmit && len(carried) > 0 {
+						res.probe("value-gate:required-value-contains-a-separator/session-carries-other-values")
+					}
+				}
+				res.probe(fmt.Sprintf("value-gate:expect-admit=%v", wantAdmit))
+				res.logf("step %d   %s -> expect admit=%v", si, gateDetail, wantAdmit)
+			}
 			if gatedPath {
 				admitted := len(d.gated) > gatedBefore
 				if admitted != wantAdmit {
-					res.violate(si, "attribute-gate", "C16/attribute-gate", fmt.Sprintf("admit=%v", wantAdmit), fmt.Sprintf("admit=%v", admitted), "")
+					res.violate(si, "attribute-gate", "C16/attribute-gate", fmt.Sprintf("admit=%v", wantAdmit), fmt.Sprintf("admit=%v", admitted), gateDetail)
 					return res
 				}
 				if !admitted {
@@ -735,7 +883,7 @@ func simplifyTokens(p *Plan) []*Plan {
 func init() {
 	register(&Profile{
 		ID: "C16", Name: "tokens", Level: "exploration",
-		Rule: "each run: real logins through the middleware (users with friendly-named, plain-named, repeated attributes, absent NameID; RSA/ECDSA SP key; custom cookie name and session lifetime) followed by 3-10 presentations to RequireAccount / RequireAttribute handlers of: the valid session token at clock positions around mint+lifetime and after a backward clock jump, the same SP's tracking token, another deployment's session token (other key, or same key and other URL), alg=none, HS256 keyed with the public key (PEM/DER), edited claims/header, truncated, bit-flipped, empty, garbage, identical claims signed by a foreign key, wrong cookie name; non-trivial = at least one presentation of a non-valid token or of the valid token outside the comfortable inside of its lifetime; distinct = distinct abstract log; a /nested/ route puts the other deployment's RequireAccount in front of the target's; users include assertions with SessionNotOnOrAfter ten hours out, attributes repeated non-adjacently and across two statements; the sibling deployment sharing the key may differ in audience only or issuer only",
+		Rule: "each run: real logins through the middleware (users with friendly-named, plain-named, repeated attributes, absent NameID; RSA/ECDSA SP key; custom cookie name and session lifetime) followed by 3-10 presentations to RequireAccount / RequireAttribute handlers of: the valid session token at clock positions around mint+lifetime and after a backward clock jump, the same SP's tracking token, another deployment's session token (other key, or same key and other URL), alg=none, HS256 keyed with the public key (PEM/DER), edited claims/header, truncated, bit-flipped, empty, garbage, identical claims signed by a foreign key, wrong cookie name; non-trivial = at least one presentation of a non-valid token or of the valid token outside the comfortable inside of its lifetime; distinct = distinct abstract log; a /nested/ route puts the other deployment's RequireAccount in front of the target's; half of the runs mount one or two further attribute gates whose required value is an ordinary string with punctuation or blanks in it (an organisation's name, a group DN, ...) while logins carry that attribute with values derived from the required one (itself, a piece cut at a separator, a prefix, a suffix, another spelling, more appended), admit <=> one carried value is the required string; 12% of the presentations go to the application's own logout endpoint, mounted behind RequireAccount at the single-logout path the SP advertises (with and without SAMLRequest/SAMLResponse parameters); users include assertions with SessionNotOnOrAfter ten hours out, attributes repeated non-adjacently and across two statements; the sibling deployment sharing the key may differ in audience only or issuer only",
 		Gen:  genTokens, Exec: execTokens, Simplify: simplifyTokens,
 		RunsQuick: 3000, RunsThorough: 300000,
 		Assumptions: []string{"a token is 'minted by this SP' iff it is exactly the cookie value the deployment set at a login (harness bookkeeping)", "+-2 s around mint and mint+lifetime is a declared don't-care (JWT instants are whole seconds)", "the default session lifetime is one hour (documented default); custom lifetimes are set through the public MaxAge fields", "the SessionIndex entry the codec adds to the attribute map is ignored"},
